@@ -14,6 +14,7 @@ mod c19;
 mod c20;
 mod c06;
 mod c07;
+mod c17;
 mod c15;
 mod c18;
 mod session;
@@ -37,6 +38,7 @@ fn dispatch(prop: &str, case: &str) -> String {
         "C20" => c20::run(case),
         "C06" => c06::run(case),
         "C07" => c07::run(case),
+        "C17" => c17::run(case),
         "C15" => c15::run(case),
         "C18" => c18::run(case),
         _ => "error:unknown-property".into(),
